@@ -5,7 +5,7 @@ from __future__ import annotations
 import numpy as np
 
 
-def of_array(a, lists=True):
+def of_array(a, lists=False):
     a = np.asarray(a)
     out = []
     if a.dtype.kind in "iu" or (a.dtype.kind == "f" and a.size and np.all(a == np.round(a)) and np.all(np.abs(a) < 100)):
